@@ -15,7 +15,8 @@ Trace == ndJsonDeserialize(IOEnv.TRACEFILE)
 VARIABLES l
 Judge(e) ==
     LET n == Len(e.ends)
-        damaged == e.kind # "none" /\ (e.kind = "gz" \/ e.t < e.rootend)
+        \* cutting a stream behind its closing root tag damages nothing; inserting garbage there does
+        damaged == e.kind # "none" /\ (e.kind = "gz" \/ e.kind = "garbage" \/ e.t < e.rootend)
         mustreport == damaged /\ (e.kind = "gz" \/ e.t >= e.rootstart)     \* a stream cut before its root element opens reads as empty
         k == IF e.kind = "gz" THEN 0 ELSE IF ~damaged THEN n ELSE Cardinality({i \in 1..n : e.ends[i] <= e.t})
         m == Len(e.got) IN
